@@ -4,7 +4,7 @@ from findcheck import run_find_property
 
 
 def main(tier, seed, replay=None):
-    n = 120 if tier == "quick" else 720
+    n = 170 if tier == "quick" else 720
     return run_find_property(
         "C01", tier, seed, replay, ["theories/Properties/C01.v"], ["decoys", "mixed", "antiparallel", "distractors", "corners", "stretched", "shuffled"], n,
         rule="planted search problems on the 1/4096 A grid: 15 pattern classes (asymmetric, chiral, weakly chiral, mirror-symmetric, "
